@@ -319,6 +319,13 @@ def oracle(kind, env, argv, line):
             return ("the server was started with the pool %s for %s/%d" % (f["pool"], f["ip"], nm), "srv:main-pool", "C18")
         if not 0 < mtu < (1 << 31):
             return ("the server was started with mtu %d" % mtu, "srv:main-mtu", "C10")
+        try:
+            sopts, _ = getopt.gnu_getopt([a.decode("latin1") for a in argv[1:]], SRV_OPTS)
+        except getopt.GetoptError:
+            sopts = None
+        if sopts is not None and int(f["cip"]) != (0 if any(o == "-c" for o, _ in sopts) else 1):
+            return ("the server was started with check_ip=%s although -c was %sgiven (source-address checking is on unless -c)" % (f["cip"], "" if any(o == "-c" for o, _ in sopts) else "not "),
+                    "srv:main-checkip", "C04")
         if my == 0xffffffff or int(f["ns"], 16) == 0xffffffff:
             return ("the server was started with INADDR_NONE as its tunnel / nameserver address", "srv:main-ip", "C18")
     else:
